@@ -1013,3 +1013,45 @@ Proof.
   rewrite (nth_error_nth' (rev l) d) by (rewrite rev_length; exact H).
   rewrite (nth_error_nth' l d) by lia. f_equal. now apply rev_nth.
 Qed.
+
+(** ------------------------------------------------------------------
+    [MetaHdr.SerializeTo] with the operators of the Go code *)
+Lemma lor_add_disjoint a b k : b < 2 ^ k -> N.lor (a * 2 ^ k) b = a * 2 ^ k + b.
+Proof.
+  intros H.
+  assert (Z : N.land (a * 2 ^ k) b = 0).
+  { apply N.bits_inj. intros n. rewrite N.land_spec, N.bits_0. destruct (N.ltb_spec n k) as [L|L].
+    - now rewrite N.mul_pow2_bits_low.
+    - assert (F : N.testbit b n = false).
+      { rewrite <- (N.mod_small b (2 ^ k)) by exact H. now apply N.mod_pow2_bits_high. }
+      rewrite F. apply andb_false_r. }
+  rewrite <- (N.lxor_lor _ _ Z). symmetry. now apply N.add_nocarry_lxor.
+Qed.
+
+Lemma meta_encode_bits_eq m : meta_encode_bits m = meta_encode m.
+Proof.
+  rewrite meta_encode_trunc. unfold meta_encode_bits.
+  change 63 with (N.ones 6). rewrite !N.land_ones, !N.shiftl_mul_pow2.
+  assert (E : (curr_inf m * 2 ^ 30) mod 2 ^ 32 = (curr_inf m mod 4) * 2 ^ 30).
+  { pose proof (meta_encode_trunc {| curr_inf := curr_inf m; curr_hf := 0; seg0 := 0; seg1 := 0; seg2 := 0 |}) as X.
+    unfold meta_encode, u32 in X. cbn [curr_inf curr_hf seg0 seg1 seg2] in X.
+    rewrite !N.mod_0_l, !N.mul_0_l, !N.add_0_r in X by discriminate. exact X. }
+  rewrite E.
+  pose proof (N.mod_lt (curr_inf m) 4 ltac:(discriminate)).
+  pose proof (N.mod_lt (curr_hf m) (2 ^ 6) ltac:(discriminate)).
+  pose proof (N.mod_lt (seg0 m) (2 ^ 6) ltac:(discriminate)).
+  pose proof (N.mod_lt (seg1 m) (2 ^ 6) ltac:(discriminate)).
+  pose proof (N.mod_lt (seg2 m) (2 ^ 6) ltac:(discriminate)).
+  change (2 ^ 6) with 64 in *.
+  set (a := curr_inf m mod 4) in *. set (b := curr_hf m mod 64) in *. set (c := seg0 m mod 64) in *.
+  set (d := seg1 m mod 64) in *. set (e := seg2 m mod 64) in *. clearbody a b c d e.
+  rewrite (lor_add_disjoint a (b * 2 ^ 24) 30) by (pows; lia).
+  replace (a * 2 ^ 30 + b * 2 ^ 24) with ((a * 64 + b) * 2 ^ 24) by (pows; lia).
+  rewrite (lor_add_disjoint _ (c * 2 ^ 12) 24) by (pows; lia).
+  replace ((a * 64 + b) * 2 ^ 24 + c * 2 ^ 12) with (((a * 64 + b) * 4096 + c) * 2 ^ 12) by (pows; lia).
+  rewrite (lor_add_disjoint _ (d * 64) 12) by (pows; lia).
+  replace (((a * 64 + b) * 4096 + c) * 2 ^ 12 + d * 64) with ((((a * 64 + b) * 4096 + c) * 64 + d) * 2 ^ 6)
+    by (pows; lia).
+  rewrite (lor_add_disjoint _ e 6) by (pows; lia).
+  pows. lia.
+Qed.
